@@ -59,6 +59,9 @@ try:
 finally:
     if in_repo: sh("git -C /repo checkout -- .")
     else: shutil.rmtree(scratch, ignore_errors=True)
+    if "C02" in props:
+        # C02 regenerates the tracked model coq/Asm/FctxGen.v from the tree it is pointed at: put /repo's back
+        sh("python3 -c \"import sys; sys.path.insert(0,'/verif/tools'); sys.path.insert(0,'/verif/tools/props'); import c02; print(c02.setup_regenerate())\"", cwd="/verif")
 mp = os.path.join(d, "meta.json")
 meta = json.load(open(mp)) if os.path.exists(mp) else {}
 meta.setdefault("checks", {}).update(out)
